@@ -175,6 +175,28 @@ func (y *c04Sys) runTree(descs []c04Desc) (c04Result, *engine.Violation) {
 					return r, tagged(viol("refund-withdrawal-is-completable", "refund of a deposit sent by %s names the L1 recipient %q, which L1 can never pay", short(alice.String()), wds[n-1].To), "kind", "refund")
 				}
 			}
+		case "executor-direct", "executor-direct-empty-recipient":
+			// what the L2 accepts is what its own validation admits, not only what today's L1 emits: a
+			// deposit message handed in by the executor directly (the escrow is funded for it, as the
+			// property allows), to an unparseable or to an empty recipient, so that it is refunded
+			to := "garbage-recipient"
+			if d.Kind == "executor-direct-empty-recipient" {
+				to = ""
+			}
+			if err := y.w1.BK.SendCoins(c1, alice, ref.BridgeAddress(1), sdk.NewCoins(sdk.NewCoin(d.Denom, amt))); err != nil {
+				panic(err)
+			}
+			l1seq++
+			res := y.w2.Deliver(c2, opchildtypes.NewMsgFinalizeTokenDeposit(world.Addr("executor").String(), alice.String(), to, sdk.NewCoin(l2d, amt), l1seq, uint64(c1.BlockHeight()), d.Denom, nil))
+			r.transitions++
+			if !res.OK() {
+				l1seq--
+				r.refusedAtEntry++
+				continue
+			}
+			if v := parse(res.Events); v != nil {
+				return r, v
+			}
 		case "hook":
 			// a user withdrawal executed inside the deposit's own hook: the recipient's signed tx
 			// withdraws the deposited amount straight back to L1
@@ -283,7 +305,7 @@ func (y *c04Sys) runTree(descs []c04Desc) (c04Result, *engine.Violation) {
 }
 
 func kindOf(from string) string {
-	if from == "garbage-recipient" {
+	if from == "garbage-recipient" || from == "" {
 		return "refund"
 	}
 	return "user"
@@ -305,6 +327,9 @@ func c04Run(rc *engine.RunCtx) *engine.Result {
 		}
 		full = append(full, c04Desc{"refund-upper-sender", a, "uinit", ""})
 	}
+	for _, a := range c04Amounts {
+		full = append(full, c04Desc{"executor-direct", a, "uinit", ""}, c04Desc{"executor-direct-empty-recipient", a, "uinit", ""})
+	}
 	for _, a := range []string{"1", "9223372036854775808", "18446744073709551615"} {
 		for _, rcp := range []string{"lower", "upper"} {
 			full = append(full, c04Desc{"hook", a, "uinit", rcp})
@@ -319,6 +344,7 @@ func c04Run(rc *engine.RunCtx) *engine.Result {
 	small = append(small, c04Desc{"hook", "1", "uinit", "lower"})
 	small = append(small, c04Desc{"user", "1", "uinit", "module"})
 	small = append(small, c04Desc{"refund-upper-sender", "1", "uinit", ""})
+	small = append(small, c04Desc{"executor-direct", "1", "uinit", ""})
 	var trees [][]c04Desc
 	for _, d := range full {
 		trees = append(trees, []c04Desc{d})
@@ -395,7 +421,7 @@ func c04Run(rc *engine.RunCtx) *engine.Result {
 	res.Coverage["withdrawals_recorded"] = total.recorded
 	res.Coverage["withdrawals_claimed"] = total.claimed
 	res.Coverage["refused_at_entry_point"] = total.refusedAtEntry
-	res.Coverage["menu"] = map[string]any{"amounts": []string{"1", "2^63-1", "2^63", "2^64-1", "2^64", "2^64+1", "2^128"}, "denoms": []string{"uinit", "128-char denom", "ibc/<hash> with slash"}, "recipients": []string{"lower-case bech32", "upper-case bech32", "fresh account", "L1 module account on the bank's blocked list"}, "kinds": []string{"user withdrawal", "refund of a deposit with a malformed recipient (also with the L1 sender spelled in upper case)", "user withdrawals (one, or two for amounts above 1) executed inside the deposit's own hook"}, "exhaustive_tree_sizes": maxExh}
+	res.Coverage["menu"] = map[string]any{"amounts": []string{"1", "2^63-1", "2^63", "2^64-1", "2^64", "2^64+1", "2^128"}, "denoms": []string{"uinit", "128-char denom", "ibc/<hash> with slash"}, "recipients": []string{"lower-case bech32", "upper-case bech32", "fresh account", "L1 module account on the bank's blocked list"}, "kinds": []string{"user withdrawal", "refund of a deposit with a malformed recipient (also with the L1 sender spelled in upper case)", "user withdrawals (one, or two for amounts above 1) executed inside the deposit's own hook", "a deposit message handed to L2 by the executor directly (escrow funded), to an unparseable or an empty recipient: whatever L2's own validation admits"}, "exhaustive_tree_sizes": maxExh}
 	res.Coverage["oracle"] = "every withdrawal event L2 emits for a positive amount and a valid L1 recipient: after proposing the tree built by the independent builder and finalizing it, the L1 claim succeeds and pays exactly the recorded amount; a recorded amount that does not fit the leaf format is a violation (the entry points must refuse what can never be completed)"
 	res.Assumptions = []string{"user holdings above what one deposit carries are produced by minting on L2 and funding the escrow on L1 (several deposits can add up to any amount)"}
 	res.Require(total.claimed > 100, "only %d claims succeeded", total.claimed)
